@@ -395,10 +395,16 @@ STANDINS = {
                       'to_string on 0..100000 and 2^k-1,2^k,2^k+1; to_lowercase on all 2-char ASCII strings without upper case; '
                       'RRQ/WRQ/OACK/ERROR from a grammar (10 strings incl. empty, non-ASCII, 517 bytes; 8 option values incl. usize::MAX; '
                       'lists of 0..3 options) against an independent RFC encoder plus round trip (about 2.8 million cases)'}],
+    'C14': [{'name': 'bounded_client', 'bin': 'bounded_client', 'extract': False, 'confirm': True, 'args': {'quick': ['quick'], 'thorough': ['full']},
+             'assumed_contract': 'interoperation of the bundled client and server (Client::upload / Client::download are outside Verus; two endpoints over UDP are not a function contract): '
+                                 'byte-identical files on both sides, download stored under the base name in the receive directory, refusals create no file',
+             'bound': 'real Client against real Server on loopback: {download, upload} x blksize {8,512,1468} x windowsize {1,3} x timeout 2 x 8 file sizes around block/window '
+                      'boundaries x {multi-port, single-port}; nested and Windows-style request path; refusals (missing file, existing file, read-only); thorough: one download of '
+                      '65538 blocks with windowsize 64 (about 200 cases)'}],
 }
 
 
-def run_standins(pid):
+def run_standins(pid, tier='quick'):
     """-> (list of evidence dicts, list of (name, counterexample text))"""
     res, cex = [], []
     if REPO != '/repo':
@@ -412,9 +418,18 @@ def run_standins(pid):
             if e.returncode != 0:
                 res.append({'name': x['name'], 'error': e.stdout.strip()[:300]})
                 continue
-        p = subprocess.run(['cargo', 'run', '--offline', '-q', '--release', '--bin', x['bin']], cwd=rdir, env=env,
-                           stdout=subprocess.PIPE, stderr=subprocess.STDOUT, text=True)
+        cmd = ['cargo', 'run', '--offline', '-q', '--release', '--bin', x['bin']] + (['--'] + x['args'][tier] if x.get('args') else [])
+        p = subprocess.run(cmd, cwd=rdir, env=env, stdout=subprocess.PIPE, stderr=subprocess.STDOUT, text=True)
         out = p.stdout.strip().split('\n')
+        if p.returncode == 1 and x.get('confirm'):
+            # a stand-in that uses real sockets and timers: a counterexample counts only if it is reproduced
+            first = [l for l in out if l.startswith('COUNTEREXAMPLE')][:1]
+            p2 = subprocess.run(cmd, cwd=rdir, env=env, stdout=subprocess.PIPE, stderr=subprocess.STDOUT, text=True)
+            out2 = p2.stdout.strip().split('\n')
+            if p2.returncode != 1 or [l for l in out2 if l.startswith('COUNTEREXAMPLE')][:1] != first:
+                res.append({'name': x['name'], 'label': 'BOUNDED (not a proof)', 'bound': x['bound'], 'exit': p2.returncode,
+                            'error': 'a counterexample was printed once but not reproduced on a second run (timing): ignored: %s' % (first[0][:200] if first else '')})
+                continue
         d = {'name': x['name'], 'label': 'BOUNDED (not a proof)', 'assumed_contract': x['assumed_contract'], 'bound': x['bound'],
              'result': out[-1][:300] if out else '', 'wall_s': round(time.time() - t0, 2), 'exit': p.returncode}
         m = re.search(r'cases=(\d+)', out[-1] if out else '')
@@ -947,7 +962,7 @@ def main():
                 if counts['assume('] or counts['admit(']:
                     print('INCONCLUSIVE: assume()/admit() found in the woven crate')
                 prc = 2
-            standins, cexs = run_standins(pid) if not a.no_evidence else ([], [])
+            standins, cexs = run_standins(pid, tier) if not a.no_evidence else ([], [])
             for (x, text) in cexs:
                 os.makedirs(os.path.join(VERIF, 'replays'), exist_ok=True)
                 rpath = os.path.join(VERIF, 'replays', '%s-%s.json' % (pid, x['name']))
